@@ -947,6 +947,9 @@ class Engine:
             return l + r
         if isinstance(op, ast.Mult) and isinstance(l, Ref) and p.heap[l.oid][0] == 'list' and isinstance(r, int):
             return self.new_list(p, list(p.heap[l.oid][1]) * r)
+        if isinstance(op, ast.Mult) and isinstance(l, Ref) and p.heap[l.oid][0] == 'list' and len(p.heap[l.oid][1]) == 1 and isinstance(r, SInt):
+            # [x] * n with a symbolic count: n copies of one element (max(n, 0) of them); only consumed by <array>.extend(...)
+            return Host('replist', value=p.heap[l.oid][1][0], n=z3.If(r.t > 0, r.t, z3.IntVal(0)))
         strs = (str, SStr)
         if isinstance(l, strs) and isinstance(r, strs) and isinstance(op, ast.Add):
             return SStr(Concat(self.to_str(p, l), self.to_str(p, r)))
